@@ -6,7 +6,7 @@ from __future__ import annotations
 
 import ast
 
-from ..astutil import call_attr, calls_in, unparse, walk_local
+from ..astutil import dispatch_tables, call_attr, calls_in, unparse, walk_local
 import re
 
 from ..cfg import CFG
@@ -168,11 +168,16 @@ def check(idx: Index, rep: Report, tier: str) -> str:
 
     def table_from_match(fn: ast.AST, subj: str, a: str, b: str, get_expr) -> dict[str, str | None]:
         out: dict[str, str | None] = {}
-        for m in [n for n in walk_local(fn) if isinstance(n, ast.Match) and unparse(n.subject) == subj]:
-            for c in m.cases:
-                k = _kind_name(c.pattern.value) if isinstance(c.pattern, ast.MatchValue) else None
+        for s_, tbl_, _d, _n in dispatch_tables(fn):  # a `match` or an if-chain on the same subject
+            if s_ != subj:
+                continue
+            for key_, body_ in tbl_.items():
+                try:
+                    k = _kind_name(ast.parse(key_, mode="eval").body)
+                except SyntaxError:
+                    k = None
                 if k:
-                    out[k] = get_expr(c.body, a, b)
+                    out[k] = get_expr(body_, a, b)
         return out
 
     def ret_op(body, a, b):
@@ -226,10 +231,15 @@ def check(idx: Index, rep: Report, tier: str) -> str:
     # parser: token -> operation, composed with get_token
     g = idx.func(APARSER, "AffineParser._create_binop_expr")
     ptab: dict[str, str | None] = {}
-    for m in [n for n in walk_local(g.node) if isinstance(n, ast.Match)]:
-        for c in m.cases:
-            if isinstance(c.pattern, ast.MatchValue) and isinstance(c.pattern.value, ast.Constant):
-                ptab[c.pattern.value.value] = ret_op(c.body, "lhs", "rhs")
+    gl_, gr_ = g.node.args.args[1].arg, g.node.args.args[2].arg
+    for _s, tbl_, _d, _n in dispatch_tables(g.node):
+        for key_, body_ in tbl_.items():
+            try:
+                kv_ = ast.literal_eval(key_)
+            except (ValueError, SyntaxError):
+                continue
+            if isinstance(kv_, str):
+                ptab[kv_] = ret_op(body_, gl_, gr_)
     if not ptab:
         # table form: a literal dict keyed by the operator token, the builder (operator.* / lambda / method) in the row
         gmod = getattr(g.module, "assigns", {})
